@@ -1082,7 +1082,7 @@ func queueTags(in, out string) (bool, []string) {
 }
 
 func main() {
-	tr.Main("C10 (stack, mlink): L = histories of one mlink.List edited through up to ~7 cursors handed out by At/Last/End/Find (neighbouring cursors on purpose, so that Remove/Truncate/Clear leave stale ones which are then used; panics recovered, hangs caught by a watchdog): exhaustively all 2-op (quick) / 3-op (thorough) continuations over every cursor x {rm,trunc,push,add,set,next} + clear from a 3-element list with a cursor at every position, scripted Truncate-then-Add-at-End and stale-cursor scenarios, and random histories of 6-30 ops; Q = queue histories from NewQueue and from a zero Queue: exhaustively all sequences over {add,pop,clear,front} to length 7 (quick) / 9 (thorough) and random ones that empty the queue often; S = stack histories, exhaustive to length 6/7 over {push,pop,clear,peek} and random.  After every op the full contents (Each), Len, IsEmpty and every cursor's AtEnd/Get (Front/Peek/Top/Slice for Q and S) are recorded.  Scale streams (every tier): each container grown to 2^k-1, 2^k, 2^k+1 elements (stack k<=12, queue k<=10, list k<=10 and one size at 2^11 in the quick tier; stack k<=13, queue and list k<=11 and one size at 2^12 thorough) and a few random sizes, drained by single Pop/Remove calls (lists also by Truncate and through a middle cursor) to 1/2, 1/4, 1/8, 1/16 of that and to one element, regrown (at a varying point and at the end) and drained past empty; after every phase the whole contents (Slice/Each as a digest above 200 values), Len, IsEmpty, Top/Front, Peek at the top, in the middle, at the last element and past it, and the order of the popped values; up to 2^9 (stack) / 2^6 (queue, list) every fraction is crossed by four single, individually observed calls.  Non-trivial: a list history in which a stale cursor was observed or used, a cursor sat at the end, or Truncate was followed by Add at End; a queue history with Add after the queue was emptied; every stack history with a pop.",
+	tr.Main("C10 (stack, mlink): L = histories of one mlink.List edited through up to ~7 cursors handed out by At/Last/End/Find (neighbouring cursors on purpose, so that Remove/Truncate/Clear leave stale ones which are then used; panics recovered, hangs caught by a watchdog): exhaustively all 2-op (quick) / 3-op (thorough) continuations over every cursor x {rm,trunc,push,add,set,next} + clear from a 3-element list with a cursor at every position, scripted Truncate-then-Add-at-End and stale-cursor scenarios, and random histories of 6-30 ops; Q = queue histories from NewQueue and from a zero Queue: exhaustively all sequences over {add,pop,clear,front} to length 7 (quick) / 9 (thorough) and random ones that empty the queue often; S = stack histories, exhaustive to length 6/7 over {push,pop,clear,peek} and random.  After every op the full contents (Each), Len, IsEmpty and every cursor's AtEnd/Get (Front/Peek/Top/Slice for Q and S) are recorded.  Scale streams (every tier): each container grown to 2^k-1, 2^k, 2^k+1 elements (stack k<=12, queue k<=10, list k<=10 and one size at 2^11 in the quick tier; stack k<=13, queue and list k<=11 and one list of 2^12 thorough) and a few random sizes, drained by single Pop/Remove calls (lists also by Truncate and through a middle cursor) to 1/2, 1/4, 1/8, 1/16 of that and to one element, regrown (at a varying point and at the end) and drained past empty; after every phase the whole contents (Slice/Each as a digest above 200 values), Len, IsEmpty, Top/Front, Peek at the top, in the middle, at the last element and past it, and the order of the popped values; up to 2^9 (stack) / 2^6 (queue, list) every fraction is crossed by four single, individually observed calls.  Non-trivial: a list history in which a stale cursor was observed or used, a cursor sat at the end, or Truncate was followed by Add at End; a queue history with Add after the queue was emptied; every stack history with a pop.",
 		exec, func(g *tr.G) {
 			stop := func() bool { return hangs.Load() >= 3 }
 			emitL := func(ops []string, tags ...string) {
@@ -1249,7 +1249,7 @@ func main() {
 			// of all entries ever allocated, ~50 times per call.
 			sk := scaleKnobs{allK: g.Scale(12, 13), kmax: g.Scale(12, 13), deepK: g.Scale(9, 10), variantsK: g.Scale(7, 9),
 				obsMax: g.Scale(1100, 4200), probeMax: 1 << 20, regrowK: g.Scale(11, 13)}
-			qk := scaleKnobs{allK: g.Scale(10, 11), kmax: g.Scale(10, 12), deepK: g.Scale(6, 8), variantsK: g.Scale(4, 6),
+			qk := scaleKnobs{allK: g.Scale(10, 11), kmax: g.Scale(10, 11), deepK: g.Scale(6, 8), variantsK: g.Scale(4, 6),
 				obsMax: g.Scale(1100, 2100), probeMax: g.Scale(300, 1100), farMax: g.Scale(2100, 4200), regrowK: g.Scale(8, 10)}
 			lk := qk
 			lk.kmax = g.Scale(11, 12) // the queue is a list with a cached end cursor: the one history beyond 2^10 goes to the list
